@@ -122,7 +122,10 @@ class Gen(ast.NodeVisitor):
         if node.body and isinstance(node.body[0], ast.Expr) and isinstance(getattr(node.body[0], "value", None), ast.Constant) \
                 and isinstance(node.body[0].value.value, str):
             self.doc_nodes.add(id(node.body[0]))
-        self.generic_visit(node)
+        # default values in signatures are not mutated: no property fixes a default (the first tranche showed
+        # that class: sigma=0.4, M=50, num_steps=500, p=2 ... all survive, none is a gap)
+        for child in node.body:
+            self.visit(child)
         self.scope.pop()
 
     visit_FunctionDef = visit_ClassDef = visit_scope
@@ -197,6 +200,9 @@ class Gen(ast.NodeVisitor):
     def visit_Expr(self, node):
         if id(node) in self.doc_nodes or (isinstance(node.value, ast.Constant) and isinstance(node.value.value, str)):
             return
+        f = getattr(node.value, "func", None)
+        if isinstance(f, ast.Name) and f.id in ("print", "verboseprint"):
+            return  # progress messages
         if self.scope and isinstance(node.value, ast.Call):
             self.delete_stmt(node)
         self.generic_visit(node)
